@@ -43,35 +43,37 @@ def check(ctx):
     behs += export(ctx, "MC_Loop_u8.cfg", "u8")
     ctx.cov["exhaustive"] = True
     rng = random.Random(ctx.seed * 43 + 12)
-    shapes, idx = [], {}
-    for b in behs:
-        k = loopgen.shape_key(b["sh"])
-        if k not in idx:
-            idx[k] = len(shapes)
-            shapes.append(b["sh"])
-    if not thorough:
-        # every shape, a seeded sample of its argument vectors (all vectors in thorough)
-        by = {}
+    # every shape in the contexts single / nested / sibling (parameter bounds, all argument vectors);
+    # a seeded sample of (shape, a, n) additionally with CONSTANT bounds (one function per vector)
+    items, idx = [], {}
+    nconst = 8000 if thorough else 1500
+    cases, beh_of = [], []
+    for cx in ("single", "nested", "sibling"):
         for b in behs:
-            by.setdefault(loopgen.shape_key(b["sh"]), []).append(b)
-        behs = []
-        for k in sorted(by):
-            g = by[k]
-            rng.shuffle(g)
-            behs += g[:2]
-    ctx.notes["shapes"] = len(shapes)
+            k = (cx, loopgen.shape_key(b["sh"]))
+            if k not in idx:
+                idx[k] = len(items)
+                items.append((b["sh"], cx, None))
+            cases.append({"fn": idx[k], "a": b["a"], "n": b["n"]})
+            beh_of.append((b, cx))
+    for b in rng.sample(behs, min(nconst, len(behs))):
+        cases.append({"fn": len(items), "a": b["a"], "n": b["n"]})
+        items.append((b["sh"], "const", (b["a"], b["n"])))
+        beh_of.append((b, "const"))
+    ctx.notes["shapes"] = len({loopgen.shape_key(b["sh"]) for b in behs})
+    ctx.notes["functions"] = len(items)
     ctx.notes["behaviours"] = len(behs)
+    ctx.notes["cases"] = len(cases)
     d = os.path.join(ctx.scratch, "gen")
     os.makedirs(os.path.join(d, "loops"))
     os.makedirs(os.path.join(d, "twin"))
-    src, twin = loopgen.render(shapes)
+    src, twin = loopgen.render(items)
     with open(os.path.join(d, "go.mod"), "w") as fh:
         fh.write("module example.com/loops\n\ngo 1.21\n")
     with open(os.path.join(d, "loops", "loops.go"), "w") as fh:
         fh.write(src)
     with open(os.path.join(d, "twin", "main.go"), "w") as fh:
         fh.write(twin)
-    cases = [{"fn": idx[loopgen.shape_key(b["sh"])], "a": b["a"], "n": b["n"]} for b in behs]
     cpath = os.path.join(ctx.scratch, "cases.json")
     with open(cpath, "w") as fh:
         json.dump(cases, fh)
@@ -83,16 +85,16 @@ def check(ctx):
         raise vlib.Inconclusive("native twin does not build/run:\n" + p.stderr[-3000:])
     nat = json.loads(p.stdout)
     disagree = []
-    for b, nres in zip(behs, nat):
+    for (b, cx), nres in zip(beh_of, nat):
         oh = [[h["i"], h["s"]] for h in b["hdr"]]
         if nres["iters"] != b["iters"] or (nres["hdr"] or []) != oh:
-            disagree.append({"sh": b["sh"], "a": b["a"], "n": b["n"], "oracle": [oh, b["iters"]], "native": [nres["hdr"], nres["iters"]]})
+            disagree.append({"ctx": cx, "sh": b["sh"], "a": b["a"], "n": b["n"], "oracle": [oh, b["iters"]], "native": [nres["hdr"], nres["iters"]]})
     if disagree:
         raise vlib.Inconclusive("Loop.tla disagrees with native Go on %d behaviours (spec bug), e.g. %s"
                                 % (len(disagree), json.dumps(disagree[0])[:800]))
-    ctx.notes["oracle_confirmed_natively"] = len(behs)
+    ctx.notes["oracle_confirmed_natively"] = len(cases)
     # the real analysis
-    plan = os.path.join(ctx.scratch, "plan.json")
+    plan = os.path.join(ctx.scratch, "plan.json")  # (cases index the generated functions)
     out = os.path.join(ctx.scratch, "claims.ndjson")
     with open(plan, "w") as fh:
         json.dump({"cases": [{"fn": "P%d" % c["fn"], "a": c["a"], "n": c["n"]} for c in cases]}, fh)
@@ -100,10 +102,11 @@ def check(ctx):
     claims = vlib.read_ndjson(out)
     evs = []
     nclaims = ntrips = 0
-    for b, c in zip(behs, claims):
-        if c.get("missing") or len(c["loops"]) != 1:
-            raise vlib.Inconclusive("analysis did not find exactly one loop in %s: %s" % (c.get("fn"), json.dumps(c)[:300]))
-        L = c["loops"][0]
+    for (b, cx), c, case in zip(beh_of, claims, cases):
+        mine = [] if c.get("missing") else [L for L in c["loops"] if "i" in (L.get("phis") or [])]
+        if len(mine) != 1 or len(c["loops"]) != (2 if cx in ("nested", "sibling") else 1):
+            raise vlib.Inconclusive("analysis did not find the generated loop(s) in %s (%s): %s" % (c.get("fn"), cx, json.dumps(c)[:300]))
+        L = mine[0]
         ivs = []
         for iv in L["ivs"] or []:
             known = iv["kind"] == "basic" and iv["start"] is not None and iv["step"] is not None
@@ -112,7 +115,7 @@ def check(ctx):
             nclaims += known
         tk = L["trip"] is not None
         ntrips += tk
-        evs.append({"ev": "loop", "fn": c["fn"], "sh": b["sh"], "a": b["a"], "n": b["n"], "width": b["sh"]["width"],
+        evs.append({"ev": "loop", "fn": c["fn"], "item": case["fn"], "ctx": cx, "sh": b["sh"], "a": b["a"], "n": b["n"], "width": b["sh"]["width"],
                     "hdr": b["hdr"], "iters": b["iters"], "ivs": ivs, "trip": L["trip"] if tk else 0, "tripknown": tk,
                     "trip_text": L["trip_s"]})
     ctx.notes["iv_claims_checked"] = nclaims
@@ -135,22 +138,23 @@ def check(ctx):
             what = "trip" if (e["tripknown"] and e["trip"] != e["iters"]) else "iv"
             seq = [h["i"] for h in e["hdr"]]
             wrapped = any(abs(y - x) != abs(sh["step"]) for x, y in zip(seq, seq[1:]))
-            sig = "C12:%s:pos=%s:stay=%s:cmp=%s:ivLeft=%s:width=%d:stepsign=%s:wrap=%s" % (
-                what, sh["pos"], sh["stay"], sh["cmp"], sh["ivLeft"], sh["width"], "+" if sh["step"] > 0 else "-",
-                "yes" if wrapped else "no")
+            sig = "C12:%s:ctx=%s:pos=%s:stay=%s:cmp=%s:ivLeft=%s:extra=%s:width=%d:stepsign=%s:wrap=%s" % (
+                what, e["ctx"], sh["pos"], sh["stay"], sh["cmp"], sh["ivLeft"], sh["extra"], sh["width"], "+" if sh["step"] > 0 else "-",
+                "n/a" if sh["extra"] == "revsub" else ("yes" if wrapped else "no"))
             classes.setdefault(sig, []).append(e)
         ctx.notes["rejected_events"] = len(fails)
         ctx.notes["rejected_classes"] = len(classes)
         for sig in sorted(classes):
             e = classes[sig][0]
             sh = e["sh"]
-            k = idx[loopgen.shape_key(sh)]
+            k = e["item"]
+            cx, consts = e["ctx"], (e["a"], e["n"])
             replay = ctx.save_replay("loop_%s" % vlib.digest([sh, e["a"], e["n"]]),
-                                     {"event.json": e, "function.go": loopgen.emit(sh, k, False), "twin.go": loopgen.emit(sh, k, True)})
+                                     {"event.json": e, "function.go": loopgen.emit(sh, k, False, cx, consts), "twin.go": loopgen.emit(sh, k, True, cx, consts)})
             desc = ("loop %s (a=%d, n=%d): body entered %d times, header saw i=%s; analysis claims trip=%s [%s], ivs=%s\n%s"
                     % (json.dumps(sh), e["a"], e["n"], e["iters"], [h["i"] for h in e["hdr"]][:14],
                        e["trip"] if e["tripknown"] else "none", e["trip_text"], [(v["var"], v["text"]) for v in e["ivs"]],
-                       loopgen.emit(sh, k, False)))
+                       loopgen.emit(sh, k, False, cx, consts)))
             ctx.violation(sig, desc + "\n(%d rejected events in this class)" % len(classes[sig]), replay)
     good = next((e for e in evs if e["tripknown"] and e["ivs"]), evs[0])
     ctx.sample({"claim": {k: good[k] for k in ("sh", "a", "n", "iters", "ivs", "trip", "trip_text")}, "hdr_i": [h["i"] for h in good["hdr"]]})
@@ -164,5 +168,6 @@ def check(ctx):
     ctx.assumptions += [
         "'the k-th evaluation of the loop header' counts from 0 and includes the final, exiting evaluation",
         "'the loop body executes' = the body is entered (a `continue` inside it still counts)",
-        "nested and sibling loops are not generated by Loop.tla (single-loop shapes); they are covered by C02/C03's programs",
+        "Loop.tla describes ONE loop; the check embeds it unchanged in four contexts (alone, nested in an outer loop — first entry observed —, followed by a sibling loop, constant bounds); the native twin confirms every embedding",
+        "an induction-variable claim whose start is not a function of the arguments (an accumulator inside a nested loop) is not evaluated",
     ]
